@@ -7,7 +7,7 @@ answer of the search that violates one clause of `answerOk`, on which the phase 
 namespace ESV.Decomp
 open ESV.Beh
 
-def bv (i : Nat) (it : Item) : BVertex := ⟨some i, .item it, none, [], [], false, none, []⟩
+def bv (i : Nat) (it : Item) : BVertex := ⟨some i, .item it, none, [], [], false, none, [], false, false, none, [], none, none, false⟩
 
 /-- `if (Branch) { Bar } else { Foo }`, both branches running into the SAME Jump (vertex 3) in front of the end
 label (vertex 4): the Jump has two in-edges -/
@@ -18,8 +18,8 @@ def cexTwoIn : BGraph :=
            ⟨3, 4, 1, false, false, []⟩, ⟨4, 5, 0, false, false, []⟩] }
 
 def cexTwoInAfter : BGraph :=
-  { vs := [⟨some 0, .item (.ljump ⟨0, "Branch", []⟩ 7 false), some 0, [], [], false, none, []⟩, bv 1 (.op ⟨1, "Foo", []⟩),
-           bv 2 (.op ⟨2, "Bar", []⟩), ⟨some 4, .item (.label 8), none, [0], [], false, none, []⟩, bv 5 (.op ⟨4, "Baz", []⟩)],
+  { vs := [⟨some 0, .item (.ljump ⟨0, "Branch", []⟩ 7 false), some 0, [], [], false, none, [], false, false, none, [], none, none, false⟩, bv 1 (.op ⟨1, "Foo", []⟩),
+           bv 2 (.op ⟨2, "Bar", []⟩), ⟨some 4, .item (.label 8), none, [0], [], false, none, [], false, false, none, [], none, none, false⟩, bv 5 (.op ⟨4, "Baz", []⟩)],
     es := [⟨0, 1, 0, false, true, []⟩, ⟨0, 2, 1, false, false, []⟩, ⟨3, 4, 0, false, false, []⟩, ⟨1, 3, 0, false, false, []⟩] }
 
 /-- a second in-edge of the by-passed Jump is cut by the final deletion: `_reconnect` moves `in_edges[0]` only.  On
@@ -43,8 +43,8 @@ def cexStart : BGraph :=
     es := [⟨0, 2, 1, false, false, []⟩, ⟨2, 3, 0, false, false, []⟩, ⟨3, 4, 0, false, false, []⟩, ⟨3, 0, 1, false, false, []⟩] }
 
 def cexStartAfter : BGraph :=
-  { vs := [bv 1 (.op ⟨1, "Foo", []⟩), ⟨some 2, .item (.label 8), none, [0], [], false, none, []⟩,
-           ⟨some 3, .item (.ljump ⟨2, "Branch", []⟩ 9 false), some 0, [], [], false, none, []⟩, bv 4 (.op ⟨3, "Bar", []⟩)],
+  { vs := [bv 1 (.op ⟨1, "Foo", []⟩), ⟨some 2, .item (.label 8), none, [0], [], false, none, [], false, false, none, [], none, none, false⟩,
+           ⟨some 3, .item (.ljump ⟨2, "Branch", []⟩ 9 false), some 0, [], [], false, none, [], false, false, none, [], none, none, false⟩, bv 4 (.op ⟨3, "Bar", []⟩)],
     es := [⟨1, 2, 0, false, false, []⟩, ⟨2, 3, 0, false, true, []⟩, ⟨2, 1, 1, false, false, []⟩] }
 
 /-- the by-passed Jump must not be the vertex the routine starts with: after the deletion the routine starts with
@@ -69,8 +69,8 @@ def cexLevels : BGraph :=
            ⟨2, 5, 1, false, false, []⟩, ⟨4, 5, 0, false, false, []⟩, ⟨5, 6, 0, false, false, []⟩] }
 
 def cexLevelsAfter : BGraph :=
-  { vs := [⟨some 0, .item (.ljump ⟨0, "Branch", []⟩ 7 false), some 0, [], [], false, none, []⟩, bv 1 (.op ⟨1, "Foo", []⟩),
-           bv 3 (.op ⟨3, "Qux", []⟩), bv 4 (.op ⟨4, "Bar", []⟩), ⟨some 5, .item (.label 8), none, [0], [], false, none, []⟩,
+  { vs := [⟨some 0, .item (.ljump ⟨0, "Branch", []⟩ 7 false), some 0, [], [], false, none, [], false, false, none, [], none, none, false⟩, bv 1 (.op ⟨1, "Foo", []⟩),
+           bv 3 (.op ⟨3, "Qux", []⟩), bv 4 (.op ⟨4, "Bar", []⟩), ⟨some 5, .item (.label 8), none, [0], [], false, none, [], false, false, none, [], none, none, false⟩,
            bv 6 (.op ⟨5, "Baz", []⟩)],
     es := [⟨0, 1, 0, false, true, []⟩, ⟨0, 3, 1, false, false, []⟩, ⟨1, 2, 0, false, false, []⟩, ⟨3, 4, 0, false, false, []⟩,
            ⟨4, 5, 0, false, false, []⟩, ⟨1, 4, 0, false, false, []⟩] }
@@ -97,8 +97,8 @@ def cexTarget : BGraph :=
            ⟨3, 4, 0, false, false, []⟩, ⟨4, 5, 0, false, false, []⟩, ⟨6, 7, 0, false, false, []⟩] }
 
 def cexTargetAfter : BGraph :=
-  { vs := [⟨some 0, .item (.ljump ⟨0, "Branch", []⟩ 7 false), some 0, [], [], false, none, []⟩, bv 1 (.op ⟨1, "Foo", []⟩),
-           bv 3 (.op ⟨3, "Bar", []⟩), ⟨some 4, .item (.label 8), none, [0], [], false, none, []⟩, bv 5 (.op ⟨4, "Baz", []⟩),
+  { vs := [⟨some 0, .item (.ljump ⟨0, "Branch", []⟩ 7 false), some 0, [], [], false, none, [], false, false, none, [], none, none, false⟩, bv 1 (.op ⟨1, "Foo", []⟩),
+           bv 3 (.op ⟨3, "Bar", []⟩), ⟨some 4, .item (.label 8), none, [0], [], false, none, [], false, false, none, [], none, none, false⟩, bv 5 (.op ⟨4, "Baz", []⟩),
            bv 6 (.label 9), bv 7 (.op ⟨5, "Zed", []⟩)],
     es := [⟨0, 1, 0, false, true, []⟩, ⟨0, 2, 1, false, false, []⟩, ⟨2, 3, 0, false, false, []⟩, ⟨3, 4, 0, false, false, []⟩,
            ⟨5, 6, 0, false, false, []⟩, ⟨1, 3, 0, false, false, []⟩] }
